@@ -277,10 +277,14 @@ pub fn make_case(subs: &[Vec<L>], stops: &[StopVia], aw: Awaiter, mailbox: Mailb
         role.started_sleep = 2;
     }
     let by_timeout = failing && FAIL_BY_TIMEOUT.with(|t| t.get());
+    let by_stopped_panic = failing && FAIL_IN_STOPPED.with(|t| t.get());
     if by_timeout {
         // the first submitted message outlasts a fatal handler timeout (2 ticks, needs 5)
         spawn.timeout = Some((2, true));
         role.work.push((msg_id(0, 0), Work { sleep: 5, ..Work::default() }));
+    } else if by_stopped_panic {
+        // everything goes well until the very end: the stopped() hook panics
+        role.stopped_panic = true;
     } else if failing {
         // the first submitted message makes the handler panic
         role.work.push((msg_id(0, 0), Work { panic: true, ..Work::default() }));
@@ -290,6 +294,7 @@ pub fn make_case(subs: &[Vec<L>], stops: &[StopVia], aw: Awaiter, mailbox: Mailb
         crate::progscene::variant_tag(),
         match (tight, slow_start) {
             _ if by_timeout => " [the failure is a fatal handler timeout]".to_string(),
+            _ if by_stopped_panic => " [the failure is a panic in stopped()]".to_string(),
             (Some(fail), _) => format!(" [timeout 2 fail={fail}, stopped() takes 5]"),
             (None, true) => " [started() takes 2]".to_string(),
             _ => String::new(),
@@ -312,6 +317,7 @@ pub fn make_case(subs: &[Vec<L>], stops: &[StopVia], aw: Awaiter, mailbox: Mailb
 thread_local! {
     /// the failing variants fail by a fatal handler timeout instead of a panic
     static FAIL_BY_TIMEOUT: std::cell::Cell<bool> = const { std::cell::Cell::new(false) };
+    static FAIL_IN_STOPPED: std::cell::Cell<bool> = const { std::cell::Cell::new(false) };
 }
 
 thread_local! {
@@ -377,8 +383,12 @@ fn plain_cases(tier: Tier) -> Vec<Case> {
             for &aw in &awaiters {
                 for p in seqs(&subs_alpha, 1) {
                     FAIL_BY_TIMEOUT.with(|t| t.set(true));
-                    let c = make_case(&[p], &[sv], aw, mb, true, None);
+                    let c = make_case(&[p.clone()], &[sv], aw, mb, true, None);
                     FAIL_BY_TIMEOUT.with(|t| t.set(false));
+                    v.push(c);
+                    FAIL_IN_STOPPED.with(|t| t.set(true));
+                    let c = make_case(&[p], &[sv], aw, mb, true, None);
+                    FAIL_IN_STOPPED.with(|t| t.set(false));
                     v.push(c);
                 }
             }
